@@ -118,6 +118,41 @@ def kindOfCls : Cls → Option Kind
   | .Feature => some .feature
   | _ => none
 
+/-! ## `File.__init__` -/
+
+/-- which of the file's two stamp attributes exist when the file is opened (none in a new file) -/
+structure FileAttrs where
+  created : Bool
+  updated : Bool
+  deriving DecidableEq, Repr
+
+/-- what opening does: which stamps are written with the current time, and whether the switch of the new
+`File` object is the `auto_update_timestamps` argument -/
+structure OpenEffect where
+  writesCreated : Bool
+  writesUpdated : Bool
+  switchFromArg : Bool
+  deriving DecidableEq, Repr
+
+def applyFStep (present : FileAttrs) (eff : OpenEffect) : FStep → Option OpenEffect
+  | .switchFromParam => some { eff with switchFromArg := true }
+  | .forceIfMissing .created => some { eff with writesCreated := eff.writesCreated || !present.created }
+  | .forceIfMissing .updated => some { eff with writesUpdated := eff.writesUpdated || !present.updated }
+  | .force .created => some { eff with writesCreated := true }
+  | .force .updated => some { eff with writesUpdated := true }
+  | .unknown => none
+
+def runFSteps (present : FileAttrs) : OpenEffect → List FStep → Option OpenEffect
+  | eff, [] => some eff
+  | eff, x :: xs =>
+    match applyFStep present eff x with
+    | some eff' => runFSteps present eff' xs
+    | none => none
+
+/-- `File.__init__` as the source has it -/
+def fileInitEffect (present : FileAttrs) : Option OpenEffect :=
+  runFSteps present ⟨false, false, false⟩ fileInit
+
 /-! ## the switch over a history -/
 
 /-- the value an operation assigns to the switch, if it is one that does (`file.auto_update_timestamps
